@@ -255,3 +255,42 @@ let () =
        ^ show_al a.Create.ca_alignment ^ " " ^ show_list show_natlist (Create.norm_crossings a) ^ " "
        ^ show_bool (Create.adds_sustain a) ^ " " ^ show_list show_pairnn (Create.sustain_map a) ^ ")")
     | _ -> "!args")
+(* ---- Front/NestSem2.v: the wider guards of the Nest group theorem (C25) ---- *)
+(* normal forms printed in the wire format of harness/docsem.py [to_wire] (derived factors with their windows and
+   tables, every constraint kind) *)
+let show_sem_window w =
+  "(" ^ show_natlist w.Sem.w_deps ^ " " ^ show_nat w.Sem.w_width ^ " " ^ show_nat w.Sem.w_stride ^ " " ^ show_nat w.Sem.w_start
+  ^ " " ^ show_list (show_list (show_list (show_list show_cellopt))) w.Sem.w_table ^ ")"
+let show_sem_factor_full f =
+  "(" ^ show_nat f.Sem.f_nlevels ^ " " ^ show_nat f.Sem.f_sustain ^ " "
+  ^ (match f.Sem.f_derived with None -> "none" | Some w -> show_sem_window w) ^ ")"
+let show_sem_constraint_full c =
+  let kind = match c.Sem.k_kind with
+    | Sem.KAtMost k -> "(atmost " ^ show_nat k ^ ")" | Sem.KAtLeast k -> "(atleast " ^ show_nat k ^ ")"
+    | Sem.KExactlyInARow k -> "(exactlyrow " ^ show_nat k ^ ")" | Sem.KExactlyK k -> "(exactlyk " ^ show_nat k ^ ")"
+    | Sem.KExclude -> "(exclude)"
+    | Sem.KPin (i, su) -> "(pin " ^ show_z i ^ " " ^ show_nat su ^ ")"
+    | Sem.KSequential (first, su) -> "(seqn " ^ show_nat first ^ " " ^ show_nat su ^ ")"
+    | Sem.KLatin (others, nmain, first, su) ->
+      "(latin " ^ show_list show_pairnn others ^ " " ^ show_nat nmain ^ " " ^ show_nat first ^ " " ^ show_nat su ^ ")" in
+  "(" ^ kind ^ " " ^ show_nat c.Sem.k_factor ^ " " ^ show_nat c.Sem.k_level ^ " " ^ show_list show_pairnn c.Sem.k_windows ^ ")"
+let show_sem_full s =
+  "(" ^ show_nat s.Sem.s_trials ^ " " ^ show_list show_sem_factor_full s.Sem.s_factors ^ " "
+  ^ show_list show_sem_crossing s.Sem.s_crossings ^ " " ^ show_list show_sem_constraint_full s.Sem.s_constraints ^ ")"
+let front_seq_of_sexp = list_of_sexp (list_of_sexp cellopt)
+let nest_guards so si = [NestSem.nestable_b so si; NestSem2.nestable_d_b so si]
+let () =
+  (* (nestsem2 OUTER_SEM INNER_SEM) -> (guards: nestable_b nestable_d_b ...)  (nest_sem2, in full) *)
+  register "nestsem2" (function [o; i] ->
+    let so = simple_sem_of_sexp o in let si = simple_sem_of_sexp i in
+    show_list show_bool (nest_guards so si) ^ " " ^ show_sem_full (NestSem2.nest_sem2 so si)
+    | _ -> "!args");
+  (* (nestgroups OUTER_SEM INNER_SEM (SEQ ...)) -> ((valid_b (nest_sem2 ..) s  groups2_b .. s) ...): the two sides of the
+     group theorems, evaluated *)
+  register "nestgroups" (function [o; i; seqs] ->
+    let so = simple_sem_of_sexp o in let si = simple_sem_of_sexp i in
+    let n = NestSem2.nest_sem2 so si in
+    show_list (fun q -> let s = front_seq_of_sexp q in
+                "(" ^ show_bool (Sem.valid_b n s) ^ " " ^ show_bool (NestSem2.groups2_b so si s) ^ ")")
+      (match seqs with L l -> l | _ -> failwith "seqs")
+    | _ -> "!args")
